@@ -206,6 +206,10 @@ def run(chk):
                 chk.violation('nothing_alive_after_join', case, {'op': opi, 'alive': oo2['alive_after']}, 'no worker and no helper thread alive once stop_and_join()/terminate() returned',
                               input_class='alive_after_' + op2['op'])
                 break
+        if o.get('managers_alive_after_release'):
+            # (the store that keeps get_insights() readable may live as long as the pool object — not longer)
+            chk.violation('nothing_left_once_the_pool_is_released', case, {'manager_processes_still_owned': o['managers_alive_after_release']},
+                          'once the pool object is released no process created by it remains', input_class='manager_after_release_' + sc['cause'])
         led = o.get('ledger') or {}
         if led.get('manager_started', 0) != led.get('manager_stopped', 0) and not sc['pool'].get('enable_insights'):
             chk.violation('progress_manager_stopped', case, {'started': led.get('manager_started'), 'stopped': led.get('manager_stopped')}, 'the tqdm manager this pool started is stopped',
